@@ -118,6 +118,7 @@ class ThreadsimProp:
                 bump("fault:codec_interrupted", res["codec_interrupted"])
                 bump("fault:codec_short_write", res["codec_short_writes"])
                 bump("fault:codec_short_read", res.get("codec_short_reads", 0))
+                bump("fault:requests_coalesced_in_one_read", res.get("coalesced_reads", 0))
                 bump("connections", len(case["sc"]["conns"]))
                 if len(case["sc"]["conns"]) > 1:
                     bump("probe:two_connections_served_concurrently")
